@@ -732,6 +732,7 @@ func (t *Table) IndexesDescription() ([]types.GlobalSecondaryIndexDescription, [
 	lsi := []types.LocalSecondaryIndexDescription{}
 
 	for indexName, index := range t.Indexes {
+		indexName := indexName // the descriptions keep a pointer to the name: one variable per index
 		schema := index.keySchema.describe()
 		count := index.count()
 
